@@ -2,6 +2,8 @@
 
 pub use vh_core::*;
 
+pub mod work;
+
 use vh_core::dynapi::{ctor_only1, ctor_only2};
 use vh_core::spec::{Spec1, Spec2, Strat1, Strat2};
 
